@@ -20,7 +20,7 @@ CaptureM(cfg) ==
            [] cfg.newline = "CRLF" -> <<"L1", "CR">>
            [] cfg.newline = "CR"   -> <<"L1", "CR", "REST">>
 \* bytes input: the capture is decoded as UTF-8, which fails for a non-UTF-8 shebang line (known finding D14)
-DecodeFailsM(cfg) == cfg.form = "bytes" /\ HasShebang(cfg) /\ ~cfg.bom /\ cfg.shebang = "non-ascii" /\ cfg.cookie \in {"latin-1", "cp1252", "iso-8859-15"}
+DecodeFailsM(cfg) == cfg.form = "bytes" /\ HasShebang(cfg) /\ ~cfg.bom /\ cfg.shebang = "non-ascii" /\ cfg.cookie \in {"latin-1", "cp1252", "iso-8859-15", "latin-1-dos", "ISO_8859_15", "Latin_1"}
 
 FirstLineM(cfg) == IF cfg.preserve /\ CaptureM(cfg) # <<>> THEN CaptureM(cfg) ELSE <<>>
 
